@@ -224,7 +224,7 @@ def enter (i : Nat) (s : St) : Option St :=
   | _ => none
 
 /-- `state := atomic.LoadInt32(&p.state)` and the branch taken. `fix` = the tail condition also
-    covers a rejected call that holds wait number 1 (see `Rv.C04b`); the code as it is has `fix = false`. -/
+    covers a rejected call that holds wait number 1 (see `Rv.C04.Life`); the code as it is has `fix = false`. -/
 def decide (fix : Bool) (i : Nat) (s : St) : Option St :=
   match stOf s i with
   | some (.counted w) =>
